@@ -279,11 +279,11 @@ def probe(cfg: Dict[str, Any], draw: int, up_draw: int = 0, backward: bool = Tru
             f, r = fit(a, c)
             obs["bwd"][k] = {"f": f, "res": r, "shape_ok": tuple(a.shape) == tuple(c.shape), "dtype_ok": a.dtype == c.dtype, "noise": None,
                              "zero_ref": bool(float(torch.nan_to_num(c.detach().to(torch.float64), nan=0.0, posinf=0.0, neginf=0.0).abs().max()) == 0.0) if c.numel() else True}
-        _calibrate(cfg, b, ins_r, up, gr, obs)
+        _calibrate(cfg, b, ins_r, up, gr, obs, gu, runner)
     return obs
 
 
-def _calibrate(cfg: Dict[str, Any], b: "Built", ins_r, up, gr, obs: Dict[str, Any]) -> None:
+def _calibrate(cfg: Dict[str, Any], b: "Built", ins_r, up, gr, obs: Dict[str, Any], gu=None, runner=None) -> None:
     """Conditioning of every gradient slot ON THIS DATA, measured on PyTorch alone: the same reference is run in a second
     precision (float64 for low-precision configurations, float32 for float64 ones) and the two reference gradients are
     compared with the same fit.  noise = how far PyTorch's own gradient moves when only the arithmetic precision changes,
@@ -307,6 +307,23 @@ def _calibrate(cfg: Dict[str, Any], b: "Built", ins_r, up, gr, obs: Dict[str, An
         s, res = fit(c, w)
         if s == s and res == res:
             obs["bwd"][k]["noise"] = (abs(s - 1.0) + res) * rescale
+    # the unit-scaled op computes some intermediates differently from the reference (e.g. a float32 statistic), so its own
+    # sensitivity to the arithmetic precision is measured the same way (eager only); a wrong but precision-independent
+    # factor leaves this measure at zero, so it cannot hide one
+    if gu is None or runner is not None or dt == "f64":
+        return
+    try:
+        ins_wu = OrderedDict((k, (v.detach().to(other).requires_grad_(v.requires_grad) if v.is_floating_point() else v.detach().clone())) for k, v in ins_r.items())
+        out_wu = b.u(ins_wu)
+        gwu = torch.autograd.grad(out_wu, [ins_wu[k] for k in b.diff], up.to(out_wu.dtype), allow_unused=True)
+    except Exception:
+        return
+    for k, c, w in zip(b.diff, gu, gwu):
+        if c is None or w is None or k not in obs["bwd"] or obs["bwd"][k].get("f") is None:
+            continue
+        s, res = fit(c, w)
+        if s == s and res == res:
+            obs["bwd"][k]["noise"] = max(obs["bwd"][k].get("noise") or 0.0, abs(s - 1.0) + res)
 
 
 # --------------------------------------------------------------------------
